@@ -3,7 +3,7 @@ import os
 
 import numpy as np
 
-from .. import env, core, gen, files, synth, spec, symcodec, view
+from .. import env, core, gen, files, synth, spec, symcodec, view, histcorr
 from seismic_zfp.cropping import SgzCropper  # noqa: E402
 from seismic_zfp.utils import WrongDimensionalityError  # noqa: E402
 
@@ -101,6 +101,35 @@ def run(ctx):
                         outcome = 'IndexError'
                     except Exception as e:  # noqa
                         outcome = f'{type(e).__name__}: {str(e)[:100]}'
+                    # K: Model/Crop (refusal, written box, copied units in output order) vs the real cropper
+                    lay = fi.lay
+                    rq = lambda r: 'N N' if r is None else f'{r[0]} {r[1]}'
+                    req = (f"crop {lay.n[0]} {lay.n[1]} {lay.n[2]} {lay.bs[0]} {lay.bs[1]} {lay.bs[2]} {lay.u} "
+                           f"{rq(box[0])} {rq(box[1])} {rq(box[2])}")
+                    ctx.stats['corr_requests'] += 1
+                    ans = model.ask(req)
+                    if outcome == 'IndexError':
+                        real = 'err index'
+                    elif outcome == 'written':
+                        try:
+                            ho, _ = spec.read_header(out)
+                            with open(out, 'rb') as fo:
+                                fo.seek(ho.data_start())
+                                raw = np.frombuffer(fo.read(spec.DISK * ho.data_blocks), dtype=np.uint8)
+                            lo = ho.layout()
+                            ids = raw.reshape(-1, lay.u)[:, :min(lay.u, 8)].astype(np.int64)
+                            idv = sum(ids[:, b_] << (8 * b_) for b_ in range(ids.shape[1])) - 1
+                            i0 = list(fi.il).index(ho.il0) if not by_coord or True else 0
+                            x0 = list(fi.xl).index(ho.xl0)
+                            z0 = int(round((ho.axes()[2][0] - fi.z[0]) / (fi.z[1] - fi.z[0]))) if len(fi.z) > 1 else 0
+                            real = (f"ok {i0} {i0 + lo.n[0]} {x0} {x0 + lo.n[1]} {z0} {z0 + lo.n[2]} | {len(idv)} "
+                                    f"{histcorr.digest(idv)}")
+                        except Exception as e:  # noqa
+                            real = f'unreadable output: {type(e).__name__}: {e}'
+                    else:
+                        real = outcome
+                    if ans != real:
+                        ctx.corr_fail('Model.Crop', req, ans, real, d)
                     if kind == 'refuse':
                         if outcome != 'IndexError':
                             ctx.fail(f'crop request that must be refused with IndexError gave: {outcome}', d)
